@@ -207,7 +207,9 @@ def extraction(ctx: Ctx, I: Interp, tag: SNew) -> None:
             it = rec.iter_value
             ctx.check(isinstance(it, SOpaque) and (it.__dict__.get("extcall") or {}).get("q") == "re.findall", "C13.dedup", "dependencies are rebuilt in order of appearance (findall order)", EXT,
                       f"iterates {short(it)}", "the found serialisations are not processed in order of appearance")
-    ctx.min_count("extraction loop paths", n, 2)
+    if n == 0:
+        n = _dedup_by_fromkeys(ctx, I, mk, pats)
+    ctx.min_count("extraction paths", n, 1)
     # .3 the pattern vs the rendered open tag
     want = open_tag_text(ctx, tag)
     for pat in pats:
@@ -230,6 +232,45 @@ def extraction(ctx: Ctx, I: Interp, tag: SNew) -> None:
             ctx.check(m is not None and m.group(1) == "a\nb\r\n", "C13.pattern", "the body group matches across line breaks", EXT, "multi-line body", "a multi-line serialisation (indent=) is not extracted")
 
 
+def _dedup_by_fromkeys(ctx: Ctx, I: Interp, mk: Any, pats: set) -> int:
+    """No loop: deps = [HTMLDependency(**json.loads(s)) for s in list(dict.fromkeys(findall(...)))] (order-preserving de-duplication)."""
+    cfg = Config()
+    cfg.opaque_all = True
+    n = 0
+    for l in I.run_function(CORE, "HTMLTextDocument._static_extract_serialized_html_deps", mk, cfg):
+        if l.kind != "return":
+            continue
+        h = l.run.__dict__["h"]
+        fa = [e for e in l.effects if e.kind == "extcall" and str(e.target) == "re.findall"]
+        su = [e for e in l.effects if e.kind == "extcall" and str(e.target) == "re.sub"]
+        ctx.require(len(fa) == 1 and len(su) == 1, "extraction does not use one re.findall and one re.sub")
+        pf, ps = fa[0].value[0], su[0].value[0]
+        ctx.check(isinstance(pf, str) and pf == ps and fa[0].value[1] is h and su[0].value[2] is h and su[0].value[1] == "", "C13.extract",
+                  "the same pattern finds and removes the serialised scripts from the same text", EXT, f"findall {short(pf)} / sub {short(ps)}",
+                  "the pattern used to find serialised dependencies differs from the one used to remove them (or the removal inserts text)")
+        if isinstance(pf, str):
+            pats.add(pf)
+        v = l.value
+        items = v.items if isinstance(v, SList) else list(v) if isinstance(v, tuple) else []
+        deps = items[1] if len(items) == 2 else None
+        ok = isinstance(deps, SList) and deps.mode == "map" and not deps.cond and isinstance(deps.elt, SNew) and deps.elt.cls_name == "HTMLDependency" \
+            and len(deps.elt.dstar) == 1 and isinstance(deps.elt.dstar[0], SOpaque) and (deps.elt.dstar[0].__dict__.get("extcall") or {}).get("q") == "json.loads" \
+            and deps.elt.dstar[0].__dict__["extcall"]["args"][0] is deps.var
+        base = deps.base if ok else None
+        # list(dict.fromkeys(findall result))
+        if isinstance(base, SOpaque) and isinstance(base.descr, tuple) and base.descr[:1] == ("dict.fromkeys",):
+            src = base
+        else:
+            src = base.meta.get("copy_of") if isinstance(base, SObj) and base.meta.get("list_ctor") == "list" else \
+                base.__dict__.get("of") if isinstance(base, SOpaque) else base
+        fk = isinstance(src, SOpaque) and isinstance(src.descr, tuple) and src.descr[0] == "dict.fromkeys" and isinstance(src.__dict__.get("of"), SOpaque) \
+            and (src.__dict__["of"].__dict__.get("extcall") or {}).get("q") == "re.findall"
+        n += 1
+        ctx.check(bool(ok and fk), "C13.dedup", "distinct serialisations in order of first appearance (dict.fromkeys) are rebuilt with HTMLDependency(**json.loads(text))", EXT,
+                  f"deps = {short(deps)}", "the extracted dependencies are not the order-preserving de-duplication of the found serialisations rebuilt one by one")
+    return n
+
+
 def text_render(ctx: Ctx, I: Interp) -> None:
     prog = ctx.prog
     where = f"{CORE}:HTMLTextDocument.render"
@@ -237,7 +278,7 @@ def text_render(ctx: Ctx, I: Interp) -> None:
     cfg = Config()
     cfg.opaque_all = True
     cfg.coarse_counts = True
-    cfg.loop_effects = False
+    cfg.loop_effects = True
 
     def mk(run: Any):
         s = SObj("self", {"HTMLTEXTDOC"})
@@ -282,7 +323,7 @@ def text_render(ctx: Ctx, I: Interp) -> None:
         lst = [e for e in calls if getattr(e.target, "qual", "") == "TagList.append" and e.value and isinstance(e.value[0], SNew) and e.value[0].args[:1] == ("script",)]
         for e in lst:
             t = e.value[0]
-            lt = listing_tokens(t.args[1]) if len(t.args) > 1 else None
+            lt = listing_tokens(t.args[1], l) if len(t.args) > 1 else None
             ok = lt is not None and (lt[0], lt[1]) == LISTING and t.kwargs.get("type") == "application/html-dependencies" \
                 and isinstance(lt[2], SObj) and (lt[2].meta.get("attr_of") or (None, None))[1] == "_deps"
             ctx.check(bool(ok), "C13.sibling", "same dependency listing as HTMLDocument puts in <head> (name[version];..., application/html-dependencies)", where,
